@@ -182,7 +182,11 @@ def case_stack(sp, tier):
     S = _S(tier)
     s0 = S[choice(len(S), "shape_k0")]
     s1 = S[choice(len(S), "shape_k1")]
-    k0, k1 = _sym("k0", s0), _sym("k1", s1)
+    f64 = choice(2, "float64") == 1
+    dt = torch.float64 if f64 else torch.float32
+    if f64:
+        torch.KERNELS["lossy_casts"] = True  # a float64 -> float32 conversion is an arbitrary perturbation, not the identity
+    k0, k1 = _sym("k0", s0, dt), _sym("k1", s1, dt)
     hp = choice(2, "hash_order")
     k0._h, k1._h = hp, 1 - hp
     nt = 2 + choice(2, "n_transforms")
@@ -190,7 +194,7 @@ def case_stack(sp, tier):
     class Const:
         """a transform producing fixed Gradients (stand-in for a task transform)"""
         def __init__(self, i, ks):
-            self.d = Gradients({[k0, k1][j]: _sym(f"t{i}_{j}", [s0, s1][j]) for j in ks})
+            self.d = Gradients({[k0, k1][j]: _sym(f"t{i}_{j}", [s0, s1][j], dt) for j in ks})
         def __call__(self, inp):
             return self.d
         required_keys = set()
@@ -200,14 +204,14 @@ def case_stack(sp, tier):
     ts = [Const(i, ks) for i, ks in enumerate(present)]
     res = Stack(ts)(EmptyTensorDict())
     def cex(model=None):
-        return dict(kind="transform", which="stack", shapes=[list(s0), list(s1)], present=[list(p) for p in present])
+        return dict(kind="transform", which="stack", shapes=[list(s0), list(s1)], present=[list(p) for p in present], dtype="float64" if f64 else "float32")
     used = sorted({j for p in present for j in p})
     ok = isinstance(res, Jacobians) and set(res.keys()) == {[k0, k1][j] for j in used}
     forms = []
     for j in used:
         key = [k0, k1][j]
         J = res[key]
-        ok = ok and tuple(J.shape) == (nt,) + tuple(key.shape)
+        ok = ok and tuple(J.shape) == (nt,) + tuple(key.shape) and J.dtype is dt
         exp = []
         for i in range(nt):
             exp.extend(ts[i].d[key]._flat() if key in ts[i].d else [R(0)] * key.numel())
